@@ -4,7 +4,6 @@
 package main
 
 import (
-	"regexp"
 	"bufio"
 	"encoding/json"
 	"fmt"
@@ -12,6 +11,7 @@ import (
 	"os"
 	"os/exec"
 	"path/filepath"
+	"regexp"
 	"sort"
 	"strconv"
 	"strings"
